@@ -40,8 +40,14 @@ class DG:
                 self.prelude.append([S("define"), [S(name)], t])
                 return [S(name)]
             return [[S("lambda"), [], t]]
-        if c < 0.93:
+        if c < 0.90:
             return [[S("lambda"), [], t]]
+        if c < 0.96:
+            # a call whose operator is itself a two-element call and whose operand is a two-element call: ((zpick 0) (zid T))
+            if not any(isinstance(f, list) and len(f) > 1 and f[1] == [S("zid"), S("zx")] for f in self.prelude):
+                self.prelude.insert(0, [S("define"), [S("zid"), S("zx")], S("zx")])
+                self.prelude.insert(0, [S("define"), [S("zpick"), S("zn")], [S("lambda"), [S("zy")], S("zy")]])
+            return [[S("zpick"), 0], [S("zid"), t]]
         return [S("begin"), t]
 
     def many(self, lo, hi):
